@@ -304,6 +304,23 @@ impl<'tcx> Facts<'tcx> {
         }
     }
 
+    fn generic_names(&self, did: DefId) -> J {
+        // type parameters in scope of `did`, in substitution-index order (parents first)
+        let tcx = self.tcx;
+        let mut v: Vec<(u32, String)> = Vec::new();
+        let mut g = Some(tcx.generics_of(did));
+        while let Some(gen) = g {
+            for p in &gen.own_params {
+                if let ty::GenericParamDefKind::Type { .. } = p.kind {
+                    v.push((p.index, p.name.to_string()));
+                }
+            }
+            g = gen.parent.map(|p| tcx.generics_of(p));
+        }
+        v.sort();
+        J::Arr(v.into_iter().map(|(_, n)| J::s(n)).collect())
+    }
+
     fn param_facts(&self, did: DefId) -> J {
         // For every type parameter in scope of `did`: which marker traits does
         // the item's own where-clause environment entail?
@@ -475,7 +492,8 @@ impl<'tcx> Facts<'tcx> {
                         let mut r = J::obj()
                             .f("path", J::s(self.path(d2)))
                             .f("local", J::Bool(d2.is_local()))
-                            .f("krate", J::s(tcx.crate_name(d2.krate).to_string()));
+                            .f("krate", J::s(tcx.crate_name(d2.krate).to_string()))
+                            .f("gargs", J::Arr(inst.args.types().map(|t| self.ty_tree(t, 0)).collect()));
                         if let Some(imp) = tcx.impl_of_assoc(d2) {
                             let sty = tcx.type_of(imp).instantiate_identity().skip_norm_wip();
                             if let ty::Adt(d, _) = sty.kind() {
@@ -793,7 +811,8 @@ impl<'tcx> Facts<'tcx> {
                         "unsafe",
                         J::Bool(tcx.fn_sig(did).skip_binder().safety().is_unsafe()),
                     )
-                    .f("param_facts", self.param_facts(did));
+                    .f("param_facts", self.param_facts(did))
+                    .f("generics", self.generic_names(did));
             } else {
                 o = o.f("parent", J::s(self.path(tcx.typeck_root_def_id(did))));
             }
